@@ -346,6 +346,41 @@ def row_function_over_two_matrices():
                 [("o1", "P0", "t1"), ("o2", "P0", "t2")], ["row-function-two-matrices", "array-param"])
 
 
+def array_returning_function():
+    """a nada function annotated to return an array (rejected by the library as it stands; if ever accepted, the
+    function's return type in the MIR must be a complete array type equal to the type of its return operation).
+    Scalar parameter, the array is captured: array PARAMETERS are the separate open finding about missing sizes."""
+    f = {"k": "def", "f": "whole_row", "params": [("x", SI)], "ret": ("arr", SI, None), "body": [], "res": "z", "form": "decorator"}
+    return prog([inp("a", "a", SI), inp("z", "z", ("arr", SI, 3)), f,
+                 {"k": "call", "x": "r", "f": "whole_row", "args": ["a"], "kwargs": []}],
+                [("o", "P0", "r")], ["array-returning-function"])
+
+
+def call_chain_depth_four():
+    """f calls g calls h calls k: every function reachable only through another function's body is emitted"""
+    k_ = {"k": "def", "f": "kk", "params": [("x", SI)], "ret": SI, "body": [{"k": "bin", "x": "s", "op": "OMul", "a": "x", "b": "x"}], "res": "s", "form": "decorator"}
+    h_ = {"k": "def", "f": "hh", "params": [("x", SI)], "ret": SI, "body": [{"k": "call", "x": "c", "f": "kk", "args": ["x"], "kwargs": []}, {"k": "bin", "x": "s", "op": "OSub", "a": "c", "b": "x"}], "res": "s", "form": "decorator"}
+    g_ = {"k": "def", "f": "gg", "params": [("x", SI)], "ret": SI, "body": [{"k": "call", "x": "c", "f": "hh", "args": ["x"], "kwargs": []}, {"k": "bin", "x": "s", "op": "OAdd", "a": "c", "b": "x"}], "res": "s", "form": "decorator"}
+    f_ = {"k": "def", "f": "ff", "params": [("x", SI)], "ret": SI, "body": [{"k": "call", "x": "c", "f": "gg", "args": ["x"], "kwargs": []}], "res": "c", "form": "decorator"}
+    return prog([inp("arr", "arr", ("arr", SI, 3)), k_, h_, g_, f_, {"k": "map", "x": "m", "a": "arr", "f": "ff"}],
+                [("o", "P0", "m")], ["call-chain-depth-four"])
+
+
+def operations_shared_between_tables():
+    """an Array.new and a function call used both by the main program and inside a function body (through a closure)"""
+    add = {"k": "def", "f": "add", "params": [("acc", SI), ("e", SI)], "ret": SI, "body": [{"k": "bin", "x": "s", "op": "OAdd", "a": "acc", "b": "e"}], "res": "s", "form": "decorator"}
+    twice = {"k": "def", "f": "twice", "params": [("e", SI)], "ret": SI, "body": [{"k": "bin", "x": "s", "op": "OAdd", "a": "e", "b": "e"}], "res": "s", "form": "decorator"}
+    scale = {"k": "def", "f": "scale", "params": [("e", SI)], "ret": SI,
+             "body": [{"k": "bin", "x": "s", "op": "OMul", "a": "e", "b": "total"}, {"k": "bin", "x": "t", "op": "OSub", "a": "s", "b": "tw"}], "res": "t", "form": "decorator"}
+    return prog([inp("a", "a", SI), inp("b", "b", SI), inp("c", "c", SI), inp("zero", "zero", SI),
+                 {"k": "bin", "x": "ab", "op": "OAdd", "a": "a", "b": "b"}, {"k": "bin", "x": "bc", "op": "OMul", "a": "b", "b": "c"}, {"k": "bin", "x": "ca", "op": "OSub", "a": "c", "b": "a"},
+                 {"k": "arrnew", "x": "arr", "es": ["ab", "bc", "ca"]}, add, twice,
+                 {"k": "reduce", "x": "total", "a": "arr", "f": "add", "init": "zero"},
+                 {"k": "call", "x": "tw", "f": "twice", "args": ["ab"], "kwargs": []}, scale,
+                 {"k": "map", "x": "m", "a": "arr", "f": "scale"}],
+                [("o1", "P0", "m"), ("o2", "P0", "total"), ("o3", "P0", "tw"), ("o4", "P0", "arr")], ["operations-shared-between-tables"])
+
+
 def objects_same_fields_other_order():
     """two objects (and two n-tuples) with the same field names and types written in different orders, mixed secrecy"""
     PI = S("Public", "Int")
@@ -469,4 +504,5 @@ def all_families():
             dup_inputs("same-party"), dup_inputs("same-party-diff-type"), dup_inputs("diff-party"), dup_inputs("diff-party-one-dead"),
             dup_inputs("same-party-one-dead"), literal_array_inner(), object_key_order(), literal_divisions(),
             closure_factory(), kwargs_reordered(), unzip_compound(), reduce_public_seed(), rebound_closure_variable(), explicit_types_reordered(), objects_same_fields_other_order(), dup_inputs_one_line('comprehension'), dup_inputs_one_line('helper'), matrix_params_two_element_types(),
-            declassifying_function_mapped(), row_function_over_two_matrices()] + rejected_functions() + wrong_arity_calls()
+            declassifying_function_mapped(), row_function_over_two_matrices(), array_returning_function(), call_chain_depth_four(),
+            operations_shared_between_tables()] + rejected_functions() + wrong_arity_calls()
